@@ -21,14 +21,14 @@ import (
 )
 
 type c03Step struct {
-	Kind   string `json:"kind"` // derive | mutate
-	Op     string `json:"op"`
-	On     int    `json:"on"`              // pool index: operand (derive) / target (mutate)
-	With   int    `json:"with,omitempty"`  // second operand (binary derive ops, UnionInPlace); -1 none
-	Vals   hVals  `json:"vals,omitempty"`  // mutation arguments / import payload set
-	A      uint64 `json:"a,omitempty"`     // OffsetRange: offset key; Flip: start
-	B      uint64 `json:"b,omitempty"`     // OffsetRange: start key; Flip: end
-	C      uint64 `json:"c,omitempty"`     // OffsetRange: end key
+	Kind    string `json:"kind"` // derive | mutate
+	Op      string `json:"op"`
+	On      int    `json:"on"`             // pool index: operand (derive) / target (mutate)
+	With    int    `json:"with,omitempty"` // second operand (binary derive ops, UnionInPlace); -1 none
+	Vals    hVals  `json:"vals,omitempty"` // mutation arguments / import payload set
+	A       uint64 `json:"a,omitempty"`    // OffsetRange: offset key; Flip: start
+	B       uint64 `json:"b,omitempty"`    // OffsetRange: start key; Flip: end
+	C       uint64 `json:"c,omitempty"`    // OffsetRange: end key
 	import_ hOp
 }
 
